@@ -66,7 +66,9 @@ IDENTITY_CALLS = {"np.asarray", "np.asanyarray", "np.ascontiguousarray"}
 
 class FuncSpec:
     def __init__(self, file, name, lean, params, pyparams=None, bind=None, given=(), absent=(), locals=None,
-                 cell=None, skip=(), doc="", which=-1, ret=None, zero_of=None, raises=False, gen=False, static=None, objects=()):
+                 cell=None, skip=(), doc="", which=-1, ret=None, zero_of=None, raises=False, gen=False, static=None, objects=(), only=()):
+        self.only = tuple(only)             # translate only the assignments to these local names (an elementwise formula inside a
+                                            # larger function); the value of the last one is returned
         self.raises = raises                # `raise` -> `none`, `return x` -> `some x`
         self.static = dict(static or {})    # python parameter -> value known at translation time (enum member as written, str, bool)
         self.objects = set(objects)         # parameters that are objects: only their attributes (see `bind`) are used
@@ -594,6 +596,23 @@ class Tr:
                 pass
             self.env[name] = (name, ty)
             return pad + f"let {name} := {s}\n" + self.block(rest, ind, k_cont, k_ret)
+        if isinstance(st, ast.AugAssign) and self.s.cell and self.s.cell.get("slice_add") and isinstance(st.target, ast.Subscript) \
+                and isinstance(st.target.value, ast.Name) and st.target.value.id in self.s.cell["slice_add"]:
+            # `out[i, a:b] += src[i]`: the row `src[i]` is added onto the window [a, b) of row `i` of the output; the cell of the
+            # translation is the pair of window bounds as written (NumPy resolves negative bounds and clips them when it slices)
+            name = st.target.value.id
+            src_name, loopvar = self.s.cell["slice_add"][name]
+            sl = st.target.slice
+            ok = (isinstance(st.op, ast.Add) and isinstance(sl, ast.Tuple) and len(sl.elts) == 2 and isinstance(sl.elts[0], ast.Name) and sl.elts[0].id == loopvar
+                  and isinstance(sl.elts[1], ast.Slice) and sl.elts[1].step is None and sl.elts[1].lower is not None and sl.elts[1].upper is not None
+                  and ast.unparse(st.value) == f"{src_name}[{loopvar}]")
+            if not ok:
+                self.err(st, f"the write into {name} is not `{name}[{loopvar}, a:b] += {src_name}[{loopvar}]`")
+            lo, tlo = self.expr(sl.elts[1].lower)
+            hi, thi = self.expr(sl.elts[1].upper)
+            lo, hi = self.coerce(lo, tlo, I, st), self.coerce(hi, thi, I, st)
+            self.env["cell_" + name] = ("cell_" + name, ("T", (I, I)))
+            return pad + f"let cell_{name} : Int × Int := ({lo}, {hi})\n" + self.block(rest, ind, k_cont, k_ret)
         if isinstance(st, ast.AugAssign):
             name = self.target_name(st.target)
             load = ast.copy_location(ast.BinOp(left=self.as_load(st.target), op=st.op, right=st.value), st)
@@ -839,6 +858,13 @@ class Tr:
 
             txt = "  let out_ : List (Nat × Nat × Nat) := []\n" + self.block(body, 2, k_cont, k_ret)
         else:
+            if s.only:
+                kept = [st for st in body if isinstance(st, ast.Assign) and len(st.targets) == 1 and isinstance(st.targets[0], ast.Name) and st.targets[0].id in s.only]
+                found = [st.targets[0].id for st in kept]
+                if sorted(set(found)) != sorted(set(s.only)) or len(found) != len(s.only):
+                    raise TranslateError(f"{s.file}:{s.name}: expected exactly one top-level assignment to each of {list(s.only)}, found {found}")
+                body = kept + [ast.copy_location(ast.Return(value=ast.Name(id=s.only[-1], ctx=ast.Load())), kept[-1])]
+
             def k_cont():
                 raise TranslateError(f"{s.file}:{s.name}: a path through the function returns nothing")
 
